@@ -987,6 +987,23 @@ pub fn sched_subs_for(id: &str) -> Vec<Sub> {
                 200_000,
             )
           },
+          Sub {
+            max_lanes: 4,
+            ..sub(
+                p_misc::C04Two {
+                    cfg: GenCfg {
+                        p_batch: 2,
+                        p_tl: 1,
+                        tl_in_batch: true,
+                        tl_in_batch_access: false,
+                        max_ops: 10,
+                        ..sched_cfg()
+                    },
+                },
+                2_000,
+                60_000,
+            )
+          },
           sched_sub(
             p_sched::SchedProp {
                 max_repeats: 3,
